@@ -304,14 +304,18 @@ def not_match_(x, y):
 @binaryop(ast.In, [types.Any, list], bool)
 @binaryop(ast.In, [types.Any, dict], bool)
 def in_(x, y):
-    return operator.contains(y, x)
+    try:
+        return operator.contains(y, x)
+    except TypeError:
+        # Unhashable values cannot be members of sets or dictionaries.
+        return False
 
 
 @binaryop(ast.NotIn, [types.Any, set], bool)
 @binaryop(ast.NotIn, [types.Any, list], bool)
 @binaryop(ast.NotIn, [types.Any, dict], bool)
 def not_in_(x, y):
-    return not operator.contains(y, x)
+    return not in_(x, y)
 
 
 _comparisons = [
